@@ -19,7 +19,7 @@ RULE = ('case = generated workflow with sequential tasks on 1-3 recurrences, '
 ASSUMPTIONS = []
 MIN = {'c31.sequential_submits': 300, 'c31.order_checks': 150,
        'c31.overlap_checks': 2000}
-NCASES = {'quick': 300, 'thorough': 4000}
+NCASES = {'quick': 1000, 'thorough': 12000}
 
 
 def ncases(tier):
